@@ -12,12 +12,12 @@ RULE = ("equilibrium / noisy Voronoi and Moebius tissues, jittered and exact squ
         "cell-cycle shifts and relabelling, angle limits 0.5*pi..pi and the defaults, static mode, default and 'lsq' back-ends "
         "with user-supplied initial conditions; non-trivial = at least one interface is excluded; distinct = (tissue, limit, method)")
 TRUSTED = ["Model/ForceSys.v angle_limited_edges / reinsert tied to fmatrix.get_angle_limited_edges / get_solution_no_discarded by "
-           "exact correspondence; the per-junction flag (max pairwise angle >= limit) is recomputed by the oracle from the "
-           "implementation's versors (circle fit and arccos are oracles)"]
+           "exact correspondence; Model/AngleLimit.v flagged_junctions (all pairs of directions, clipped dot <= cos(limit)) tied to fm.deletes by a "
+           "PrimFloat correspondence on the implementation's versors (circle fit, arccos and cos are oracles)"]
 ASSUMPTIONS = ["restricted-system solution compared with an independent scipy NNLS solve of the restricted augmented system, tolerance 1e-6"]
 TESTED_NOT_PROVED = ["'every other position holds the solution of the restricted system' is compared numerically with an independent solve",
                      "default-limit clause: checked on tissues without exactly straight-through interface pairs (arccos(-1) = pi ties excluded)"]
-IMPORTS = "From Forsys Require Import Model.Num Model.CaseUtil Model.PyList Model.ForceSys.\n"
+IMPORTS = "From Forsys Require Import Model.Num Model.CaseUtil Model.PyList Model.ForceSys Model.AngleLimit.\n"
 
 
 def check_case(res, spec, limit, method, exprs, label):
@@ -49,6 +49,16 @@ def check_case(res, spec, limit, method, exprs, label):
     bad = []
     if tie:
         res.count("angle exactly at the limit (tie, not judged)")
+    else:
+        # correspondence of the flagging rule (PrimFloat instance of Model/AngleLimit.v): the junctions' versors and cos(limit) go in, the
+        # flagged set must come out.  arccos is decreasing, so angle >= limit <=> clipped dot <= cos(limit); margins of 1e-9 rad are
+        # guaranteed by the tie test above
+        coslim = math.cos(lim) if lim <= math.pi else -2.0
+        juncs_l = "[" + "; ".join(
+            f"({C.zlit(v)}, [" + "; ".join(f"({C.flit(float(a[0]))}, {C.flit(float(a[1]))})" for a in
+                                           [fr.big_edges[b].get_versor_from_vertex(v, fit_method="dlite") for b in fr.vertices[v].own_big_edges]) + "])"
+            for v in ends) + "]"
+        exprs.append((f"setZ_eqb (flagged_junctions FOps {C.flit(coslim)} {juncs_l}) {C.zlist(sorted(fm.deletes))}", replay))
     exp_excl = [i for i, e in enumerate(internal) if e[0] in flagged and e[-1] in flagged]
     exp_used = [e for i, e in enumerate(internal) if i not in exp_excl]
     got_used = [list(e) for e in fm.big_edges_to_use]
